@@ -46,8 +46,10 @@ class T3Projector:
 
     def __call__(self, t):
         t = float(t)
-        if t != t or np.isinf(t):
+        if t != t:
             return [0, 0, 0]
+        if np.isinf(t):
+            return [1000000 if t > 0 else -1000000, 1, 0]       # +-infinity
         x = self.g.inv(t)
         fr = Fraction(x).limit_denominator(2000)
         if abs(float(fr) - x) > 1e-9 * (1 + abs(x)):
@@ -62,6 +64,8 @@ class T3Projector:
 def conc_thr(g, t3):
     """abstract supplied threshold <<n, d, 0>> -> float"""
     n, d, _ = t3
+    if abs(n) >= 1000000:
+        return float("inf") if n > 0 else float("-inf")
     if d == 1:
         return float(g(n))
     lo = n // d
@@ -136,7 +140,7 @@ def run(ctx: core.Ctx):
     ctx.model("MC_C15", MC_CFG.format(**par), env={"CASES_FILE": cases_file}, timeout=7200)
     data = json.loads(cases_file.read_text())
     cases, args = data["cases"], data["args"]
-    fam = [gamma.ident(), gamma.affine(2.0, 1.0), gamma.affine(0.5, -3.0)]
+    fam = [gamma.ident(), gamma.affine(2.0, 1.0), gamma.ident_int(), gamma.affine(0.5, -3.0), gamma.ident_f32()]
     ids = iter(range(1, 10**9))
     events = []
     for cid, o in enumerate(cases):
